@@ -648,5 +648,125 @@ def rule_r8(ctx) -> RuleResult:
     return rr
 
 
+class _KeyNorm(Flow):
+    """State: the normal-form facts known about the text in the key variable -- frozenset of 'int' (converted to an integer
+    index), 'collapsed' (white-space runs replaced by one blank), 'stripped' (no leading/trailing white space).  Any other
+    assignment from a computation resets the facts; an assignment that only unpacks or renames keeps none either."""
+
+    def __init__(self, ctx, var: str, sink):
+        self.ctx, self.var, self.sink = ctx, var, sink
+        self.at_sink: list = []  # (node, state)
+
+    def _steps(self, e, state):
+        """facts about the value of expression e, given the facts of the variable"""
+        if isinstance(e, ast.Name) and e.id == self.var:
+            return state
+        if isinstance(e, ast.Call):
+            f = e.func
+            if isinstance(f, ast.Name) and f.id == "int":
+                return frozenset({"int"})
+            if isinstance(f, ast.Attribute) and f.attr == "strip" and not e.args:
+                inner = self._steps(f.value, state)
+                return (inner - {"int"}) | {"stripped"}
+            if isinstance(f, ast.Attribute) and f.attr == "sub" and len(e.args) >= 2:
+                # re.sub(P, " ", x) / COMPILED.sub(" ", x)
+                if unparse(f.value) == "re" and len(e.args) >= 3:
+                    pat, rep, subj = e.args[0], e.args[1], e.args[2]
+                else:
+                    pat, rep, subj = f.value, e.args[0], e.args[1]
+                try:
+                    pv = str(self.ctx.index.fold("core", pat))
+                except Exception:  # noqa: BLE001
+                    pv = None
+                if pv is not None and hasattr(pv, "pattern"):
+                    pv = pv.pattern
+                inner = self._steps(subj, state)
+                if pv in (r"\s+", r"(?s)\s+") and isinstance(rep, ast.Constant) and rep.value == " ":
+                    # collapsing can leave one blank at either end, so 'stripped' survives only if it held before
+                    return (inner - {"int"}) | {"collapsed"}
+                return frozenset({"unknown"})
+            if unparse(f).split(".")[-1] in ("expand_recurse", "expand_args", "groups", "group", "expand", "str"):
+                return frozenset()  # fresh text: nothing is known about its white space
+            return frozenset({"unknown"})
+        if isinstance(e, ast.Name):
+            return frozenset({"int"}) if e.id == "num" else frozenset({"unknown"})
+        if isinstance(e, (ast.Constant, ast.Subscript)):
+            return frozenset()
+        return frozenset({"unknown"})
+
+    def transfer(self, st, state):
+        for n in ast.walk(st):
+            if self.sink(n):
+                self.at_sink.append((n, state))
+        if isinstance(st, ast.Assign) and len(st.targets) == 1:
+            t = st.targets[0]
+            if isinstance(t, ast.Name) and t.id == self.var:
+                return [self._steps(st.value, state)]
+            if isinstance(t, ast.Tuple) and any(isinstance(x, ast.Name) and x.id == self.var for x in t.elts):
+                return [frozenset()]
+        if isinstance(st, ast.AnnAssign) and isinstance(st.target, ast.Name) and st.target.id == self.var and st.value is not None:
+            return [self._steps(st.value, state)]
+        return [state]
+
+    def transfer_expr(self, node, state):
+        return [state]
+
+
+def rule_r9(ctx) -> RuleResult:
+    """`{{t|first  name=x}}` and `{{{first name}}}` name the same parameter: both the site that stores a named argument and the
+    site that looks a reference up bring a non-numeric name into one normal form (white-space runs collapsed to one blank, ends
+    stripped).  If one site skips the normalisation on some path, names that differ only in white space are one key there and two
+    keys at the other site (seed C04-8A: names without a template call stored as written)."""
+    rr = RuleResult("C04.R9", "argument names reach the argument map and the lookup in one normal form on every path", min_instances=2)
+    # writer: stores into ht inside the fill loop
+    tb = X.template_branch(ctx)
+    parents = ctx.index.mod("core").parents
+    sites = X.map_fill_sites(tb, "ht", parents)
+    loops = [l for store, ls in sites for l in ls if isinstance(l, ast.For)]
+    if not loops:
+        raise AnalysisError("template branch: fill loop of the argument map not found")
+    lp = loops[0]
+    stores = [st for st, _ in sites if isinstance(st, ast.Assign) and isinstance(st.targets[0], ast.Subscript) and isinstance(st.targets[0].slice, ast.Name)]
+    if not stores:
+        raise AnalysisError("template branch: `ht[<name>] = value` not found")
+    kvar = stores[0].targets[0].slice.id
+    w = _KeyNorm(ctx, kvar, lambda n: isinstance(n, ast.Assign) and any(n is s_ for s_ in stores))
+    w.run_block(lp.body, {frozenset()})
+    # reader: argmap.get(k) in the argument-reference arm of expand_args
+    afn = ctx.fn(X.ARGS)
+    arms = X.kind_arms(X.main_loop(afn), ctx=ctx)
+    if "A" not in arms:
+        raise AnalysisError("expand_args: `kind == 'A'` arm not found")
+    amap = afn.args.args[1].arg if len(afn.args.args) > 1 else "argmap"
+    def is_lookup(n):
+        if isinstance(n, ast.Call) and isinstance(n.func, ast.Attribute) and n.func.attr == "get" and unparse(n.func.value) == amap and n.args:
+            return isinstance(n.args[0], ast.Name)
+        return isinstance(n, ast.Subscript) and unparse(n.value) == amap and isinstance(n.slice, ast.Name)
+    looks = [n for st in arms["A"] for n in ast.walk(st) if is_lookup(n)]
+    if not looks:
+        raise AnalysisError("expand_args: lookup of the argument name in the map not found")
+    rvar = looks[0].args[0].id if isinstance(looks[0], ast.Call) else looks[0].slice.id
+    r = _KeyNorm(ctx, rvar, lambda n: any(n is l_ for l_ in looks))
+    r.run_block(arms["A"], {frozenset()})
+    for label, fl, where in (("stored", w, X.RECURSE), ("looked up", r, X.ARGS)):
+        if not fl.at_sink:
+            raise AnalysisError("{}: the key never reaches the map on the analysed paths".format(where))
+        unk = [n for n, st in fl.at_sink if "unknown" in st]
+        if unk:
+            raise AnalysisError("{}: the argument name goes through a step the rule does not know before it is {} (line {})".format(
+                where, label, unk[0].lineno))
+        bad = [(n, st) for n, st in fl.at_sink if "int" not in st and not {"collapsed", "stripped"} <= st]
+        good = [(n, st) for n, st in fl.at_sink if not ("int" not in st and not {"collapsed", "stripped"} <= st)]
+        for n, st in bad:
+            rr.bad(Finding("C04.R9", X.CORE, where, "argument name {} without white-space normalisation".format(label),
+                           "on some path a non-numeric argument name is {} as {} (missing: {}) while the other site collapses white-space "
+                           "runs and strips the ends: `{{{{t|first  name=x}}}}` no longer binds `{{{{{{first  name}}}}}}`".format(
+                               label, "written" if not st else "only " + "+".join(sorted(st)),
+                               ", ".join(sorted({"collapsed", "stripped"} - st))), n.lineno))
+        if good and not bad:
+            rr.ok(where, "every path: the name is {} as an integer index or collapsed+stripped ({} path states)".format(label, len(good)))
+    return rr
+
+
 def run(ctx) -> list:
-    return [rule_r1(ctx), rule_r2(ctx), rule_r3(ctx), rule_r4(ctx), rule_r5(ctx), rule_r6(ctx), rule_r7(ctx), rule_r8(ctx)]
+    return [rule_r1(ctx), rule_r2(ctx), rule_r3(ctx), rule_r4(ctx), rule_r5(ctx), rule_r6(ctx), rule_r7(ctx), rule_r8(ctx), rule_r9(ctx)]
